@@ -851,6 +851,104 @@ theorem c17_write (env : Env) (c0 s0 : Node) (hc0 : Clean c0) (hs0 : Clean s0) (
   exact clean_of _ z3 (by rw [z11, w5, p10, hrq]; exact hs0.q) z4 z5 (by rw [z11, w5, p10, hrq]; exact hs0.qd)
     (by rw [z11, w5, p10, hrq]; exact hs0.qe) z8 z6 z7 z9 z10
 
+-- ------------------------------------------------------------------------------------------------ seed / key handshake
+/-- SEED/KEY, server side, step 1: the opening DM14 is answered with the seed the generator returns; the application is
+    not consulted; the server waits for the key -/
+theorem server_sends_seed (env : Env) (s0 : Node) (hcl : Clean s0) (hsec : s0.seedSecurity = true) (hk : s0.s.hasKey = true)
+    (seed cl count direct cmd address level : Nat) (hc : cmd < 8) (hd : direct < 16) (hlv : level < 2 ^ 16) :
+    deliver env s0 seed true ⟨PGN_DM14, cl, openDm14 count direct cmd address level⟩ =
+      { n := { s0 with f := .requestStarted,
+                       s := { s0.s with sa := some cl, state := .waitKey, status := ST_PROCEED, length := 8,
+                                        address := some (Py.toBytesLE 4 address), direct := direct, command := cmd,
+                                        pointerType := direct % 2, objectCount := count, accessLevel := level,
+                                        data := openDm14 count direct cmd address level, seed := seed } },
+        outs := [.tx PGN_DM15 (cl &&& 0xFF) 6 (seedDm15 direct seed)], err := none } := by
+  obtain ⟨h1, h2, h3, h4, h5, h6, h7, h8, h9, h10, h11⟩ := hcl
+  have hcmd := cmd_decode count direct cmd address level hc hd
+  have hpt := ptype_decode count direct cmd address level hc
+  have hlen : (openDm14 count direct cmd address level).length = 8 := by simp [openDm14, toBytesLE_length]
+  simp [deliver, notifyLoop, runCb, fListen, sParseDm14, sRejects, h1, h3, h4, h8, h9, h10, h11, hsec, hk, hlen,
+    PGN_DM14, hcmd, hpt, open_slice, open_direct _ _ _ _ _ hc, open_count, open_level _ _ _ _ _ hlv, sDm15, seedDm15, Py.set, ST_PROCEED]
+
+/-- SEED/KEY, server side, step 2: the DM14 carrying the RIGHT key (the configured function of the seed that was sent)
+    for the same request is verified, the application is consulted with key and seed, and the node is in the same
+    `Accepted` state a request without seed/key reaches — so everything after it (`server_read_short`,
+    `server_read_long`, `server_write_*`, `server_closing`) applies unchanged -/
+theorem server_accepts_key (env : Env) (s1 : Node) (cl count direct cmd address key sd2 : Nat)
+    (hc : cmd < 8) (hd : direct < 16) (hkey : key < 2 ^ 16) (ha : address < 2 ^ 32)
+    (hf : s1.f = .requestStarted) (hsubs : s1.subs = [.listen]) (hsec : s1.seedSecurity = true) (hp : s1.hasProceed = true)
+    (hst : s1.s.state = .waitKey) (hsa : s1.s.sa = some cl) (haddr : s1.s.address = some (Py.toBytesLE 4 address))
+    (hb : s1.s.busy = false) (hl : s1.s.length = 8) (hq : s1.s.dataQ = []) (hright : env.skey s1.s.seed = key) :
+    (deliver env s1 sd2 true ⟨PGN_DM14, cl, openDm14 count direct cmd address key⟩).outs = [.proceed cmd address s1.s.pointerType 8 count key cl s1.s.accessLevel s1.s.seed, .notify] ∧
+    (deliver env s1 sd2 true ⟨PGN_DM14, cl, openDm14 count direct cmd address key⟩).err = none ∧ Accepted (deliver env s1 sd2 true ⟨PGN_DM14, cl, openDm14 count direct cmd address key⟩).n cl count direct cmd ∧
+    (deliver env s1 sd2 true ⟨PGN_DM14, cl, openDm14 count direct cmd address key⟩).n.q = s1.q ∧ (deliver env s1 sd2 true ⟨PGN_DM14, cl, openDm14 count direct cmd address key⟩).n.s.address = some (Py.toBytesLE 4 address) ∧
+    cfg (deliver env s1 sd2 true ⟨PGN_DM14, cl, openDm14 count direct cmd address key⟩).n = cfg s1 := by
+  have hcmd := cmd_decode count direct cmd address key hc hd
+  have hlen : (openDm14 count direct cmd address key).length = 8 := by simp [openDm14, toBytesLE_length]
+  have hcfg := cfg_deliver env s1 sd2 true ⟨PGN_DM14, cl, openDm14 count direct cmd address key⟩
+  refine ⟨?_, ?_, ?_, ?_, ?_, hcfg⟩ <;>
+  simp [deliver, notifyLoop, runCb, fListen, fConsult, sParseDm14, sRejects, hf, hsubs, hsec, hp, hst, hsa, haddr, hb, hl, hq, hlen,
+    PGN_DM14, hcmd, open_slice, open_direct _ _ _ _ _ hc, open_count, open_level _ _ _ _ _ hkey, hright, Accepted,
+    fromBytesLE_toBytesLE 4 address ha]
+
+/-- SEED/KEY, client side: the seed DM15 is answered with the DM14 carrying the configured key function of EXACTLY that
+    seed (any 16-bit seed, 0xFFFF included); the client's state does not change — it goes on waiting for proceed -/
+theorem client_answers_seed (env : Env) (c : Node) (sv direct seed : Nat) (hd : direct < 16) (hs : seed < 2 ^ 16)
+    (hsubs : c.subs = [.listen, .q15]) (h1 : c.q.state = .waitSeed) (h2 : c.q.dest = sv) (h3 : c.q.objectCount ≠ 0)
+    (h4 : c.q.hasKey = true) :
+    deliver env c 0 true ⟨PGN_DM15, sv, seedDm15 direct seed⟩ = { n := c, outs := [qDm14 c.q (env.ckey seed)] } := by
+  have hst : Dm14.q_dm15_status (seedDm15 direct seed) = 0 := status_proceed direct 0 hd
+  have hseed : Dm14.q_dm15_seed (seedDm15 direct seed) = seed := by
+    simp only [Dm14.q_dm15_seed, seedDm15, Py.idx, List.getD_cons_succ, List.getD_cons_zero]
+    have : seed &&& 255 = seed % 256 := Nat.and_two_pow_sub_one_eq_mod seed 8
+    rw [this]
+    simp only [Nat.shiftLeft_eq, Nat.shiftRight_eq_div_pow]
+    omega
+  have hlen : ¬ (seedDm15 direct seed).length < 8 := by simp [seedDm15]
+  have h0 : Py.idx (seedDm15 direct seed) 0 = 0 := rfl
+  have hc0 : ¬ (0 = c.q.objectCount) := fun h => h3 h.symm
+  have hq15 : qParseDm15 env c ⟨PGN_DM15, sv, seedDm15 direct seed⟩ = { n := c, outs := [qDm14 c.q (env.ckey seed)] } := by
+    simp [qParseDm15, h2, hlen, hst, hseed, h0, hc0, ST_BUSY, ST_OPER_FAILED, h1, h4]
+  have hli : fListen env c 0 true ⟨PGN_DM15, sv, seedDm15 direct seed⟩ = { n := c } := by
+    simp [fListen, PGN_DM15, PGN_DM14]
+  simp [deliver, notifyLoop, hsubs, runCb, hli, hq15]
+
+/-- C17, THE SEED/KEY HANDSHAKE END TO END (read or write, any seed the generator returns, any pair of key functions
+    that agree on that seed): client and server exchange opening DM14 → seed DM15 → key DM14; the application is
+    consulted once — with the client's command, address, pointer type, count, requester, AND the key and seed — and
+    the server is then in the `Accepted` state from which `server_read_short` / `server_read_long` / `server_write_*`
+    / `server_closing` run exactly as without seed/key, while the client is still in the state in which
+    `client_read_proceed` / `client_write_proceed` apply -/
+theorem c17_seedkey_handshake (env : Env) (c0 s0 : Node) (hc0 : Clean c0) (hs0 : Clean s0) (hsec : s0.seedSecurity = true)
+    (hk : s0.s.hasKey = true) (hp : s0.hasProceed = true) (hck : c0.q.hasKey = true)
+    (cl sv direct address count osize seed sd2 : Nat) (signed raw : Bool)
+    (hcount : count ≠ 0) (ha : address < 2 ^ 32) (hd : direct < 16) (hlv : c0.q.userLevel < 2 ^ 16) (hseed : seed < 2 ^ 16)
+    (hkeys : env.ckey seed = env.skey seed) (hk16 : env.skey seed < 2 ^ 16) :
+    let rc1 := Dm14.read c0 sv direct address count osize signed raw
+    let rs1 := deliver env s0 seed true ⟨PGN_DM14, cl, openDm14 count direct CMD_READ address c0.q.userLevel⟩
+    let rc2 := deliver env rc1.1 0 true ⟨PGN_DM15, sv, seedDm15 direct seed⟩
+    let rs2 := deliver env rs1.n sd2 true ⟨PGN_DM14, cl, openDm14 count direct CMD_READ address (env.skey seed)⟩
+    rc1.2.1 = [.tx PGN_DM14 (sv &&& 0xFF) 6 (openDm14 count direct CMD_READ address c0.q.userLevel)] ∧
+    rs1.outs = [.tx PGN_DM15 (cl &&& 0xFF) 6 (seedDm15 direct seed)] ∧
+    rc2.outs = [.tx PGN_DM14 (sv &&& 0xFF) 6 (openDm14 count direct CMD_READ address (env.skey seed))] ∧ rc2.n = rc1.1 ∧
+    rs2.outs = [.proceed CMD_READ address (direct % 2) 8 count (env.skey seed) cl c0.q.userLevel seed, .notify] ∧
+    Accepted rs2.n cl count direct CMD_READ := by
+  intro rc1 rs1 rc2 rs2
+  have hb := client_read_begin c0 hc0 sv direct address count osize signed raw hcount ha
+  have hS := server_sends_seed env s0 hs0 hsec hk seed cl count direct CMD_READ address c0.q.userLevel (by decide) hd hlv
+  have hrc1 : rc1 = _ := hb
+  have hrs1 : rs1 = _ := hS
+  have hC := client_answers_seed env rc1.1 sv direct seed hd hseed (by rw [hrc1]; rfl) (by rw [hrc1]; rfl) (by rw [hrc1]; rfl)
+    (by rw [hrc1]; exact hcount) (by rw [hrc1]; exact hck)
+  have hrc2 : rc2 = _ := hC
+  obtain ⟨k1, k2, k3, k4, k5, k6⟩ := server_accepts_key env rs1.n cl count direct CMD_READ address (env.skey seed) sd2 (by decide) hd hk16 ha
+    (by rw [hrs1]) (by rw [hrs1]; exact hs0.subs) (by rw [hrs1]; exact hsec) (by rw [hrs1]; exact hp) (by rw [hrs1]) (by rw [hrs1])
+    (by rw [hrs1]) (by rw [hrs1]; exact hs0.busy) (by rw [hrs1]) (by rw [hrs1]; exact hs0.sd) (by rw [hrs1])
+  refine ⟨by rw [hrc1], by rw [hrs1], ?_, by rw [hrc2], ?_, k3⟩
+  · rw [hrc2, hrc1]
+    simp [qDm14, cWaitSeed, openDm14, hkeys, CMD_READ]
+  · rw [k1, hrs1]
+
 -- ------------------------------------------------------------------------------------------------ back to back
 /-- a client and a server (without seed/key) between transactions -/
 structure Ready (c s : Node) : Prop where
